@@ -18,6 +18,8 @@
 pub mod execution_profile;
 
 mod execution;
+#[cfg(scylla_verif)]
+pub(crate) use execution::verif as execution_verif;
 
 pub mod pager;
 
